@@ -48,6 +48,7 @@ PROOFS = [
     Proof('mpmc/pop', 'ring.c', 'h_mpmc_pop', kind='L', min_obligations=4, backend='cadical'),
 ]
 NATIVES = []
+AUX_VIOLATION = True    # no native oracle: a failing loop-rule obligation is reported (no-failing-input-found), see DESIGN §4
 TRUSTED = ['cbmc 6.11.0', 'lowering rules of specs/C07/spec.py']
 NOT_DECIDED = ['FIFO per producer across stalls; "nothing lost or duplicated" as a whole-history property (the per-call step contracts + the mark-protocol lemmas are what is proved)',
                'the RingChannel / FlexRingChannel notification protocol (Dekker fence, idler/pending counters, semaphore): memory-model and schedule facts',
